@@ -20,6 +20,7 @@ import (
 	"github.com/ipni/go-libipni/dagsync"
 	"github.com/ipni/go-libipni/dagsync/ipnisync"
 	"github.com/ipni/go-libipni/ingest/schema"
+	"github.com/libp2p/go-libp2p/core/host"
 	"github.com/libp2p/go-libp2p/core/peer"
 	"github.com/multiformats/go-multiaddr"
 	"github.com/multiformats/go-multihash"
@@ -65,6 +66,9 @@ type PubOpts struct {
 	Topic       string
 	Proto       *cidlink.LinkPrototype
 	Ident       *Ident // overrides the Ed25519 identity derived from Name
+	// StreamHost: serve over libp2p streams on this host (libp2phttp)
+	// instead of over the simulated HTTP network.
+	StreamHost host.Host
 	// PadAd gives, for the ad with chain index i, the exact size its encoded
 	// block is to have (0 = as it comes); the ad is padded with a filler
 	// address.
@@ -116,8 +120,17 @@ func (w *World) NewPublisher(o PubOpts) *PubNode {
 	if o.Topic != "" {
 		popts = append(popts, ipnisync.WithHeadTopic(o.Topic))
 	}
+	if o.StreamHost != nil {
+		popts = []ipnisync.Option{ipnisync.WithStreamHost(o.StreamHost)}
+		if o.Topic != "" {
+			popts = append(popts, ipnisync.WithHeadTopic(o.Topic))
+		}
+	}
 	p.Pub = must(ipnisync.NewPublisher(p.LS, id.Priv, popts...))
 	p.Addrs = p.Pub.Addrs()
+	if o.StreamHost != nil {
+		p.Addrs = o.StreamHost.Addrs()
+	}
 	for _, h := range o.Hosts {
 		srv := w.Net.AddServer(&simkit.Server{Name: o.Name, Addr: dialAddr(h, o.TLS), TLS: o.TLS, Handler: p})
 		p.Servers = append(p.Servers, srv)
@@ -287,10 +300,15 @@ type SubNode struct {
 }
 
 func (w *World) NewSubscriber(opts ...dagsync.Option) *SubNode {
+	return w.NewSubscriberOn(nil, opts...)
+}
+
+// NewSubscriberOn creates the subscriber on a libp2p host (nil = none).
+func (w *World) NewSubscriberOn(h host.Host, opts ...dagsync.Option) *SubNode {
 	st := simkit.NewStore(w.R, "sub.store")
 	s := &SubNode{W: w, Store: st, LS: st.LinkSystem(), FailAt: map[cid.Cid]error{}}
 	all := append([]dagsync.Option{dagsync.BlockHook(s.blockHook)}, opts...)
-	s.Sub = must(dagsync.NewSubscriber(nil, s.LS, all...))
+	s.Sub = must(dagsync.NewSubscriber(h, s.LS, all...))
 	return s
 }
 
